@@ -467,7 +467,7 @@ func c12Judge(op []string, out string) string {
 			return "missing file not reported as not-found: " + out
 		}
 	case "c12.seq", "c12.nat":
-		return c12JudgeHistory(op[1], op[2:], strings.Fields(out))
+		return c12JudgeHistory(op[1], op[2:], strings.Fields(out), op[0] == "c12.seq")
 	case "c12.torn":
 		f := kv(out)
 		n := f["n"]
@@ -513,10 +513,31 @@ func c12Judge(op []string, out string) string {
 }
 
 // c12JudgeHistory replays the history against the property's own reading: the file holds what was
-// stored last; the loader that stored it, and every fresh loader, must read exactly that.
-func c12JudgeHistory(shape string, items, outs []string) string {
+// stored last; the loader that stored it, and every fresh loader, must read exactly that. A long-lived
+// loader may answer from what it read earlier only while the file still carries the modification time it
+// had then (the loader's cache is keyed by it; equal times with other content are the coarse-clock case
+// the property leaves open); with any other modification time (forced times only: c12.seq) it has to look
+// at the file like a fresh loader does — the last stored session, not-found, or an error for a file cut
+// short — whatever it has loaded, stored or failed to load before.
+func c12JudgeHistory(shape string, items, outs []string, forcedTimes bool) string {
 	if len(outs) != len(items) {
 		return "history aborted: " + strings.Join(outs, " ")
+	}
+	type seenT struct {
+		mtime int
+		ok    bool
+	}
+	seen := map[int]seenT{} // loader -> modification time of the file at its last successful Load
+	cur := -1               // the file's (forced) modification time
+	upTo := func(i int) string {
+		var b []string
+		for _, it := range items[:i+1] {
+			if len(it) > 90 {
+				it = it[:90] + "…"
+			}
+			b = append(b, it)
+		}
+		return clip(strings.Join(b, " "))
 	}
 	type state int
 	const (
@@ -540,6 +561,8 @@ func c12JudgeHistory(shape string, items, outs []string) string {
 				}
 				st, last, by = stored, c12ParseSess(p[2]), atoi(p[1])
 				written = append(written, specFile(last))
+				cur = atoi(p[3])
+				delete(seen, by) // Store drops what the loader had read
 			} else if o == "ok" {
 				return fmt.Sprintf("item %d: Store reports success without a directory", i)
 			}
@@ -547,6 +570,32 @@ func c12JudgeHistory(shape string, items, outs []string) string {
 			ld := -1
 			if p[0] == "L" {
 				ld = atoi(p[1])
+			}
+			if ld >= 0 && forcedTimes && c12DirExists(shape) {
+				if sn := seen[ld]; !(sn.ok && sn.mtime == cur) || st == missing {
+					// nothing this loader has read belongs to the file as it is now
+					what := ""
+					switch {
+					case st == stored && !c12Same(o, last):
+						what = "the last stored session " + last.show()
+					case st == missing && o != "err:notfound":
+						what = "not-found (the file was deleted)"
+					case st == torn && !strings.HasPrefix(o, "err:"):
+						what = "an error (the file is a strict prefix of a session file: another writer was cut short)"
+					}
+					if what != "" {
+						had := "had not loaded before"
+						if sn.ok {
+							had = fmt.Sprintf("had loaded successfully when the file's modification time was %d (now %d)", sn.mtime, cur)
+						}
+						return fmt.Sprintf("item %d: long-lived loader %d, which %s, returns %s; it must return %s — history: %s", i, ld, had, o, what, upTo(i))
+					}
+				}
+				if strings.HasPrefix(o, "ok:") {
+					if sn := seen[ld]; !(sn.ok && sn.mtime == cur) {
+						seen[ld] = seenT{cur, true}
+					}
+				}
 			}
 			switch st {
 			case stored:
@@ -565,6 +614,7 @@ func c12JudgeHistory(shape string, items, outs []string) string {
 		case "X":
 			// cut short = a strict prefix of the file of a session stored earlier in this history
 			st, by = foreign, -1
+			cur = atoi(p[2])
 			c := parseBytes(p[1])
 			for _, f := range written {
 				if len(c) < len(f) && string(f[:len(c)]) == string(c) {
@@ -836,6 +886,43 @@ func c12Gen(g *G) {
 			tag = "history-multi-loader"
 		}
 		g.Emit("c12.seq "+sh+" "+strings.Join(items, " "), tag)
+	}
+	// a long-lived loader that has loaded successfully, and another writer (a second loader / another process)
+	// that is cut short afterwards at EVERY byte of its file, each time at a later modification time: the
+	// long-lived loader must report an error every time (never what it read before), like a fresh one
+	for i := g.N(12, 300); i > 0; i-- {
+		sh := c12Shapes[g.R.Intn(4)]
+		s1, s2 := c12SmallSess(g), c12SmallSess(g)
+		items := []string{fmt.Sprintf("S:0:%s:5", s1.token()), "L:0"}
+		m := 6
+		torn := s1 // the other writer rewrites the same session …
+		switch g.R.Intn(3) {
+		case 0: // … or stores a newer one completely first (seen or not by the long-lived loader), then is cut short
+			items = append(items, fmt.Sprintf("S:1:%s:%d", s2.token(), m))
+			if g.R.Bool() {
+				items = append(items, "L:0")
+			}
+			m++
+			torn = s2
+		case 1:
+			items = append(items, "L:0", "F")
+		}
+		f := specFile(torn)
+		for k := 0; k < len(f); k++ {
+			if !g.Thorough() && len(f) > 48 && k > 8 && k < len(f)-8 && g.R.Intn(3) != 0 {
+				continue
+			}
+			items = append(items, fmt.Sprintf("X:%s:%d", hexD(f[:k]), m), "L:0")
+			if g.R.Intn(4) == 0 {
+				items = append(items, "F")
+			}
+			if g.R.Intn(3) > 0 {
+				m++
+			}
+		}
+		// the writer gets through at last: everybody reads the complete session
+		items = append(items, fmt.Sprintf("S:1:%s:%d", torn.token(), m+1), "L:0", "L:1", "F")
+		g.Emit("c12.seq "+sh+" "+strings.Join(items, " "), "history-multi-loader", "history-torn-under-a-loaded-loader")
 	}
 	// histories on the real clock: one loader storing and loading as fast as it can
 	for i := g.N(150, 3000); i > 0; i-- {
